@@ -34,7 +34,7 @@ def plan(tier):
 
 
 def n_cases(tier):
-    return 12000 if tier == 'thorough' else 500
+    return 36000 if tier == 'thorough' else 500
 
 
 def one_case(rng, tier):
